@@ -384,24 +384,34 @@ func s2RunC07(c *vcore.Ctx) *vcore.Violation {
 	// enumerate: a fault at every system call index of the fault-free trace
 	n := base.nSys
 	type tr struct {
-		actor, name string
-		ord         int
+		actor, name, args string
+		ord               int
 	}
 	var steps []tr
 	for _, t := range base.ktrace {
-		steps = append(steps, tr{t.actor, t.name, t.ord})
+		steps = append(steps, tr{t.actor, t.name, t.args, t.ord})
 	}
 	c.Probe("c07_configs")
 	for idx := 0; idx < n && idx < len(steps); idx++ {
 		st := steps[idx]
 		kinds := []string{"errno"}
+		idMapStep := false
 		if st.name == "exit" || st.name == "nanosleep" {
 			continue
 		}
 		if st.actor != "child" {
 			// parent side: steps whose failure the kernel can really produce and the protocol must survive
 			switch st.name {
-			case "socketpair", "clone", "clone3", "open":
+			case "socketpair", "clone", "clone3":
+			case "open":
+				idMapStep = true
+			case "write":
+				// writing an id map or the setgroups switch is refused by the kernel for overlapping extents,
+				// unprivileged or nested callers (EINVAL / EPERM): the child must then not go on
+				if !strings.HasPrefix(st.args, "40,") {
+					continue
+				}
+				idMapStep = true
 			case "read", "wait4":
 				kinds = []string{"eintr"}
 			default:
@@ -426,7 +436,9 @@ func s2RunC07(c *vcore.Ctx) *vcore.Violation {
 		c.Probe("c07_fault_runs")
 		c.Event(fmt.Sprintf("fault:%s:%s:%s", st.actor, st.name, kind))
 		what := fmt.Sprintf("%s of %s's %s (its call #%d, schedule %d)", kind, st.actor, st.name, st.ord, plan.sched)
-		mustFail := false
+		// the parent reports the failed id-map step to the child, which gives up; Start says so unless the
+		// configuration makes it return at the child's stop, before anything later can be reported
+		mustFail := idMapStep && kind == "errno" && !earlyReturn(g)
 		v := s2CheckFailure(prop, g, l, k2, files2, what, st.name, st.actor, kind, mustFail)
 		if v == nil && kind == "errno" && st.actor == "child" && l.err != nil {
 			var ce forkexec.ChildError
